@@ -59,13 +59,13 @@ let handle (line : ostr) : ostr =
     let row_out r = "{" ^ OS.concat "," (List.filter_map (fun (k, v) -> if v = [] then None else Some ("\"" ^ hex_of_bytes k ^ "\":\"" ^ hex_of_bytes v ^ "\"")) r) ^ "}" in
     res_out (fun rs -> "[" ^ OS.concat "," (List.map (fun (rows, out) ->
         "{\"rows\":[" ^ OS.concat "," (List.map row_out rows) ^ "],\"out\":\"" ^ hex_of_bytes out ^ "\"}") rs) ^ "]")
-      (tab_root tab_T c fuel n (to_bytes (string_of_hex id)) (b 3) (inc po) (inc pi) (to_bytes (string_of_hex orig)) (to_bytes (string_of_hex igs)))
+      (tab_root tab_T c fuel n (let i = to_bytes (string_of_hex id) in if OS.length flags > 4 && b 4 then endpoint_id i else i) (b 3) (inc po) (inc pi) (to_bytes (string_of_hex orig)) (to_bytes (string_of_hex igs)))
   | ["tabspec"; tree] ->
     (* specification of the rows of ONE statement (Spec/TabSpec.v): choices in product order and linkage entries *)
     let n = node_of_string tree in
     (match stmt_of_node n with
      | Ok s ->
-       let t = tab_T.tt_leaf in
+       let t = spec_table in
        let cell x = match spec_cell_text x with
          | Some (c, v) -> "[\"" ^ hex_of_bytes c ^ "\",\"" ^ hex_of_bytes v ^ "\"]"
          | None -> "[\"" ^ hex_of_bytes (comp_name (node_meta x.l_n) x.l_a) ^ "\",null]" in
